@@ -9,6 +9,8 @@ import (
 	"errors"
 	"flag"
 	"fmt"
+	"github.com/hashicorp/go-multierror"
+	"io"
 	"os"
 	"sort"
 	"strings"
@@ -35,6 +37,35 @@ type hnode struct {
 }
 
 var errInjected = errors.New("injected reopen failure")
+
+// ctxLike claims to be both context errors (errors.Is through its Is method) besides wrapping the injected failure
+type ctxLike struct{ obj int }
+
+func (c *ctxLike) Error() string { return fmt.Sprintf("object %d: dial: i/o timeout", c.obj) }
+func (c *ctxLike) Unwrap() error { return errInjected }
+func (c *ctxLike) Is(t error) bool {
+	return t == context.Canceled || t == context.DeadlineExceeded || t == io.EOF
+}
+func (c *ctxLike) Timeout() bool   { return true }
+func (c *ctxLike) Temporary() bool { return true }
+
+// injectedFailure is the error a failing harness node returns: always errors.Is(err, errInjected), but of different value
+// classes - a node's failure is the node's own, whatever it looks like (a context error of the node's own making, an
+// aggregate, a "temporary" network error): the Broker has to carry it
+func injectedFailure(what string, obj int) error {
+	switch obj % 5 {
+	case 0:
+		return fmt.Errorf("%s of object %d: %w", what, obj, errInjected)
+	case 1:
+		return fmt.Errorf("%s of object %d: %w (%w)", what, obj, errInjected, context.Canceled)
+	case 2:
+		return &ctxLike{obj: obj}
+	case 3:
+		return multierror.Append(nil, context.DeadlineExceeded, fmt.Errorf("%s of object %d: %w", what, obj, errInjected))
+	default:
+		return errors.Join(io.EOF, errInjected)
+	}
+}
 
 func (n *hnode) Process(ctx context.Context, e *el.Event) (*el.Event, error) {
 	n.mu.Lock()
@@ -64,7 +95,7 @@ func (n *hnode) reopenCounted() error {
 	fail := n.reopenErr
 	n.mu.Unlock()
 	if fail {
-		return fmt.Errorf("reopen of object %d: %w", n.obj, errInjected)
+		return injectedFailure("reopen", n.obj)
 	}
 	return nil
 }
@@ -152,7 +183,7 @@ func (n *hnode) Close(ctx context.Context) error {
 	n.closed++
 	n.mu.Unlock()
 	if n.closeErr {
-		return errors.New("close failed")
+		return injectedFailure("close", n.obj)
 	}
 	return nil
 }
@@ -719,7 +750,8 @@ func genTypeSeq(e *emitter, maxLen int, variants bool) {
 	rec(nil)
 }
 
-var menu = [][]int{{2, 3}, {1, 2, 3}, {2, 4}, {1, 1, 2, 3}, {2, 2, 3}, {1, 2, 4}, {2, 1, 2, 3}}
+// {3, 2, 4}, {3, 2, 3}: a sink-typed node in a non-final position is a valid definition
+var menu = [][]int{{2, 3}, {1, 2, 3}, {2, 4}, {3, 2, 4}, {1, 1, 2, 3}, {2, 2, 3}, {1, 2, 4}, {2, 1, 2, 3}, {3, 2, 3}}
 var nodeTy = map[int]int{1: 1, 2: 2, 3: 3, 4: 3}
 var bfsSmall bool
 
